@@ -384,7 +384,7 @@ def callee_name(t):
 
 
 class Program:
-    def __init__(self, path):
+    def __init__(self, path, inline=True):
         self.bodies = {}
         self.adts = {}
         self.impls = []
@@ -421,13 +421,14 @@ class Program:
         # helpers the rules do not know by name are spliced into their callers (vlib/inline.py)
         from . import inline as _inline
 
-        self.inlined = _inline.apply(self, Body, strip_generics)
-        try:
-            from rules import guards as _guards
+        self.inlined = _inline.apply(self, Body, strip_generics) if inline else {}
+        if inline:
+            try:
+                from rules import guards as _guards
 
-            _guards.PROGRAM = self
-        except Exception:
-            pass
+                _guards.PROGRAM = self
+            except Exception:
+                pass
 
     # -- lookup helpers
     def find(self, pattern, exactly_one=False):
@@ -733,5 +734,6 @@ def _consts_in_rvalue(rv):
             yield from _consts_in_operand(o)
 
 
-def load(facts_dir):
-    return Program(os.path.join(facts_dir, "mir.jsonl"))
+def load(facts_dir, inline=True):
+    """inline=False gives the program exactly as compiled (helpers not spliced): for rules that evaluate a helper as a function"""
+    return Program(os.path.join(facts_dir, "mir.jsonl"), inline=inline)
